@@ -224,7 +224,16 @@ def _support_mask(recipe, shape, g):
         raise ValueError(sup)
     if not m.any():
         m[nr // 2, nc // 2] = True
+    if not well_posed(m):
+        # soundness rule 4: >= 3 non-collinear pixels whenever the array allows it
+        m = np.ones(shape, dtype=bool)
     return m
+
+
+def well_posed(m):
+    """True when the support has at least 3 non-collinear pixels (tilt fit is full rank)."""
+    rr, cc = np.nonzero(m)
+    return rr.size >= 3 and np.unique(rr).size >= 2 and np.unique(cc).size >= 2
 
 
 def _mask_array(kind, recipe, shape, g):
@@ -239,7 +248,14 @@ def _mask_array(kind, recipe, shape, g):
         d = np.stack([(rr - sr) ** 2 + (cc - sc) ** 2 for sr, sc in zip(sites_r, sites_c)])
         lab = np.argmin(d, axis=0)
         segs = [(sup & (lab == i)) for i in range(k)]
-        segs = [s for s in segs if s.any()]
+        good = [s for s in segs if well_posed(s)]
+        bad = [s for s in segs if s.any() and not well_posed(s)]
+        if good:
+            for b in bad:          # fold degenerate slivers into the first good segment
+                good[0] = good[0] | b
+            segs = good
+        else:
+            segs = [sup]
         if kind == 'segments_flat':
             return np.sum(segs, axis=0).astype(float)
         return np.array(segs).astype(float)
